@@ -83,7 +83,7 @@ ASSUMPTIONS = [
 
 DIRS = ["alpha", "bravo", "charlie"]
 TITLES = ["Title_one", "Title_two", "T3", "Tamp", "Tbrace", "Tutf", "Tlong", "Tjson", "T0x", "Uu"]   # c17_world.TITLE_TOKENS
-STEMS = ["va", "vb", "aa", "ea", "tx", "va_01", "vb_01"]
+STEMS = ["va", "vb", "aa", "ea", "tx", "va_01", "vb_01", "VA", "Vb"]     # names keep the case they are uploaded with
 SUFFIXES = [".mp4", ".mp4", ".mp4", ".m4v"]
 KIND_WEIGHTS = [("v1", 3), ("v2", 2), ("v9", 1), ("a1", 2), ("ev", 1.5), ("e2", 1), ("eb", 1), ("ea", 1), ("vz", 1),
                 ("v3", .6), ("vn", .6), ("a4", .6), ("s1", .5), ("jk", .5), ("em", .15), ("ft", .7), ("fa", .25), ("fv", .15), ("fe", .25)]
@@ -115,9 +115,10 @@ DEFAULTS_FORM = {
     "playready__piff": ["0", "1"], "playready__version": ["1.0", "2.0", "3.0", "4.0", "4.1", "4.2", "4.3"],
 }
 DEFAULTS_ILLEGAL = [("start", "not-a-date"), ("depth", "abc"), ("mup", "x"), ("leeway", "q")]
+KID_SPELLINGS = ["lower", "upper", "mixed", "0x", "dashes", "0xdashes"]
 MPS_NAMES = ["mpsone", "mpstwo", "mp"]
 MPS_TITLES = ["MPS_one", "MPS_two", "M2", "Tamp", "Tutf", "Xy", "Uu"]     # M2, Xy, Uu: shorter than 3 characters
-PIDS = ["p1", "p2", "p3"]
+PIDS = ["p1", "p2", "p3", "P1"]
 TRACKS = [1, 2, 3, 4, 5, 9]
 SPEC_TRACKS = [0, 1, 2, 3, 4, 5, 9, 4294967295]      # track ids named by a Period (any number is accepted)
 
@@ -359,8 +360,8 @@ def gen_op(rng, rows):
     if k == "as":
         used = {s["dir"] for s in streams}
         free = [d for d in DIRS if d not in used]
-        d = rng.choice(free) if free and rng.random() < .8 else rng.choice(DIRS)
-        return ("as", d, rng.choice(TITLES))
+        d = rng.choice(free) if free and rng.random() < .8 else rng.choice(DIRS + ["Alpha", "ALPHA"])
+        return ("as", d, rng.choice(TITLES), rng.randrange(2))
     if k == "up":
         spk = pick_pk(rng, streams)
         stems = list(STEMS)
@@ -391,7 +392,7 @@ def gen_op(rng, rows):
             tref = rng.choice(files)["name"]
         else:
             tref = "nosuch"
-        return ("es", spk, d, rng.choice(TITLES), tref)
+        return ("es", spk, d, rng.choice(TITLES), tref, rng.randrange(2))
     if k == "em":
         f = rng.choice(indexed) if indexed and rng.random() < .8 else None
         mfid = f["pk"] if f else pick_pk(rng, files, .3)
@@ -410,7 +411,7 @@ def gen_op(rng, rows):
     if k == "sd":
         return gen_defaults(rng, streams)
     if k == "ak":
-        return ("ak", rng.choice(KIDS), rng.random() < .5)
+        return ("ak", rng.choice(KIDS), rng.random() < .5, rng.randrange(2), rng.choice(KID_SPELLINGS))
     if k == "ek":
         return ("ek", pick_pk(rng, keys), rng.random() < .5)
     if k == "dk":
@@ -703,6 +704,20 @@ def grid_histories(thorough: bool):
         ("mm", "mpsone", 1, "mpsone", "MPS_one", (P(None, "p9", 2, 4, [1], 4_000_000, 16_000_001, False),)),
         ("mm", "mpsone", 1, "abc", "abc", ()), ("mm", "abc", 1, "ab", "abc", ()), ("mm", "abc", 1, "mpstwo", "abc", ()),
         ("xm", "abc"), ("ds", 2, 1), ("ds", 1, 0)])
+    # 4. identifiers the store keys on, entered through every route in every accepted spelling, then looked up:
+    #    a key id (PUT /key and the HTML form) followed by indexing a file encrypted with it, the same id again through
+    #    the other route (must be refused: one row per 16-byte id), edit and delete of the configured key
+    K1, K2 = KIDS[0], KIDS[1]
+    for route in (1, 0):
+        h = [("as", "alpha", "Title_one", 1), ("up", 1, "ea", ".mp4", "ev"), ("up", 1, "eb", ".mp4", "ea")]
+        spellings = KID_SPELLINGS[1:] if thorough else (["upper", "0x", "dashes"] if route else ["mixed", "0xdashes", "upper"])
+        for spelling in spellings:
+            h += [("ak", K1, False, route, spelling), ("ix", 1), ("ak", K1, True, 1 - route, "lower"),
+                  ("ak", K1, False, route, "upper"), ("ek", 1, True), ("up", 1, "ec", ".mp4", "e2"), ("ix", 3),
+                  ("dk", 1), ("dm", 1, 3, 0)]
+        h += [("ak", K2, True, route, "dashes"), ("ix", 2), ("ak", K2, False, 1 - route, "0x"), ("es", 1, "alpha", "T3", "ea", 1),
+              ("as", "Alpha", "T3", route), ("as", "alpha", "T3", 1), ("es", 2, "alpha", "T3", "", 1), ("ds", 1, 0)]
+        out.append(h)
     return out
 
 
@@ -731,7 +746,7 @@ def channels(ctx):
     rng = ctx.rng("store_hist")
     t0 = time.time()
     budget = 140 if not ctx.thorough else 780      # safety net only: the counts below are what normally ends the loop
-    n_hist = ctx.scale(80, 150)
+    n_hist = ctx.scale(65, 150)
     max_len = 12 if not ctx.thorough else 60
     hs = []
     for ops in corpus_histories():
